@@ -2,7 +2,7 @@
 (* Trace validation for C17.  One trace (tid) = one history over real files:
 
      World          v0 : sample -> site -> call [ph, ps, al, raw] of the phased VCF V0 as written
-                    reads : [smp, cov, al]  the error-free reads (alleles by construction)
+                    reads : [smp, tpl, cov, al]  the error-free reads (alleles by construction)
      Haplotag       b : read -> [hp, ps]    projection of the BAM written by whatshap haplotag
      Unphase        u : sample -> site -> call   projection of the VCF given to haplotagphase
                     (output of whatshap unphase; with a partially phased input the kept
@@ -29,7 +29,7 @@ JudgeFinal(e) ==
               /\ Check(e, "PrephasedUntouched", \A s \in DOMAIN e.w : PrephasedUntouched(fs.u[s], e.w[s]))
 
 Judge(e) ==
-    CASE e.ev = "World"    -> Check(e, "Premise", NoReadSpansTwoSets(e.reads, e.v0))
+    CASE e.ev = "World"    -> Check(e, "Premise", SetsSeparated(e.reads, e.v0))
       [] e.ev = "Haplotag" -> /\ Check(e, "Returns", e.exc = "")
                               /\ e.exc = "" => Check(e, "Shape", Len(e.b) = Len(fs.reads))
       [] e.ev = "Unphase"  -> /\ Check(e, "Returns", e.exc = "")
